@@ -696,8 +696,12 @@ def run(ctx):
     grid_cases(ctx, do)
 
     bad = ctx.coq_check(IMPORTS, terms, tag="c21", shard=30)
-    for ix in bad:
+    for nth, ix in enumerate(bad):
         info = infos[ix]
+        if nth >= 2:
+            ctx.mismatch("model-vs-deep-traverse", "Coq model and deep_traverse disagree on %s" % info["case"]["label"], case=info["case"],
+                         observed={"manifest": info["manifest"], "stats": info["stats"]}, correspondence="deep-traverse-vs-model")
+            continue
         keys = ["wf", "manifest", "stats", "fuel"]
         pbad = ctx.coq_check(IMPORTS, ["let g := %s in %s" % (info["g_term"], info["parts"][k]) for k in keys], tag="c21loc")
         which = [keys[j] for j in pbad]
